@@ -176,6 +176,44 @@ pub fn run(ctx: &'static Ctx) {
             bad_ids.push(format!("{}PNP0A03", tail));
         }
     }
+    // every character at every digit position of three valid identifiers (the value principle): anything that is not a
+    // hexadecimal digit must be refused; a lower-case hexadecimal digit is either refused or emitted as the very identifier
+    // it spells (compared case-insensitively) - never as another one. Letter positions: not judged (see below)
+    {
+        let mut chars: Vec<char> = (0u32..0x800).filter_map(char::from_u32).collect();
+        chars.extend(['\u{800}', '\u{fffd}', '\u{ff10}', '\u{ff21}', '\u{10000}', '\u{1d7ce}']);
+        let mut ne = 0u64;
+        let mut letters_not_judged = 0u64;
+        for bg in ["PNP0A03", "ABC1234", "ZZZFFFF"] {
+            for pos in 0..7usize {
+                for c in &chars {
+                    let mut v: Vec<char> = bg.chars().collect();
+                    v[pos] = *c;
+                    let id: String = v.into_iter().collect();
+                    ne += 1;
+                    ctx.tr(1);
+                    if pos >= 3 && !c.is_ascii_hexdigit() {
+                        bad_ids.push(id);
+                        continue;
+                    }
+                    if pos < 3 {
+                        // the property's refusal clause names wrong lengths, misplaced separators and non-hex digits; what
+                        // happens to a non-letter in a letter position is not stated, so it is not judged (the crate
+                        // accepts e.g. a backtick there)
+                        letters_not_judged += 1;
+                        continue;
+                    }
+                    if let Ok(b) = catch(|| ser(&EISAName::new(&id))) {
+                        let back = int_decode(&b).map(|x| String::from_utf8_lossy(&eisa_decompress(x.0 as u32)).to_string());
+                        if back.as_deref().map(|s| s.eq_ignore_ascii_case(&id)) != Some(true) {
+                            ctx.violation_sized("eisa:character-altered", 7, || format!("EISA id {:?} accepted and emitted as {} which decompresses to {:?}", id, hex(&b), back), || json!({"family":"eisa","id":id}));
+                        }
+                    }
+                }
+            }
+        }
+        ctx.engine("E3.eisa-every-character", json!({"ids": ne, "digit_positions": 4, "backgrounds": 3, "letter_position_strings_not_judged": letters_not_judged}));
+    }
     for s in &bad_ids {
         bad += 1;
         ctx.tr(1);
@@ -297,6 +335,31 @@ pub fn run(ctx: &'static Ctx) {
         }
     }
     refuse(&format!("{{{}}}", good), "braces");
+    // every character at every position (the value principle; the property's "malformed strings differing from a valid one
+    // in one position"): all of U+0000..U+07FF and a selection beyond, at each of the 36 positions of three valid UUIDs -
+    // a hex digit at a digit position / a dash at a dash position must encode that UUID, anything else must be refused
+    {
+        let mut chars: Vec<char> = (0u32..0x800).filter_map(char::from_u32).collect();
+        chars.extend(['\u{800}', '\u{fffd}', '\u{ff10}', '\u{ff21}', '\u{10000}', '\u{1d7ce}']);
+        let mut npos = 0u64;
+        for bg in bgs {
+            for pos in 0..36usize {
+                for c in &chars {
+                    let mut v: Vec<char> = bg.chars().collect();
+                    v[pos] = *c;
+                    let st: String = v.into_iter().collect();
+                    let valid = if [8, 13, 18, 23].contains(&pos) { *c == '-' } else { c.is_ascii_hexdigit() };
+                    npos += 1;
+                    if valid {
+                        check_uuid(ctx, &st);
+                    } else {
+                        refuse(&st, "character");
+                    }
+                }
+            }
+        }
+        ctx.engine("E3.uuid-every-character", json!({"strings": npos, "characters": chars.len(), "positions": 36, "backgrounds": 3}));
+    }
     // every placement of exactly four dashes in a 36-character string of hex digits (58 905 strings): only 8-4-4-4-12 is a UUID
     {
         let digits: Vec<u8> = good.bytes().filter(|b| *b != b'-').collect();
